@@ -99,7 +99,7 @@ def exS : FieldReq :=
   { reqs := [.dimCoord 0 0 ⟨7, 0, [], none⟩ (some "lon") none 8 false none, .data ⟨9, 7, [], none⟩ "ua" [0] [] false] }
 
 
-theorem appendFull_extends (fx : Fix) (nc4 : Bool) (E : Ds) (rb S : List FieldReq) :
+theorem appendFull_extends (fx : Fix) (hg : fx.globalsGuarded = true) (nc4 : Bool) (E : Ds) (rb S : List FieldReq) :
     Extends E (appendFull fx nc4 E rb S).2.1 := by
   unfold appendFull
   split
@@ -107,7 +107,7 @@ theorem appendFull_extends (fx : Fix) (nc4 : Bool) (E : Ds) (rb S : List FieldRe
   · split
     · exact Extends.refl E
     · rename_i r _ _
-      have h := run_post_inv fx E (emitAll fx E.gattrs S) (startPost fx E r) ⟨E, []⟩ (PostInv.init E)
+      have h := run_post_inv fx hg E (emitAll fx E.gattrs S) (startPost fx E r) ⟨E, []⟩ (PostInv.init E)
       split
       · rename_i heq; rw [heq] at h; exact h.ext
       · rename_i heq; rw [heq] at h; exact h.ext
@@ -115,12 +115,12 @@ theorem appendFull_extends (fx : Fix) (nc4 : Bool) (E : Ds) (rb S : List FieldRe
 /-- One append, patched or not, successful, refused or failed half-way: the global attributes are
 unchanged, every old variable is still there with the same dimensions, attributes and contents, every
 old dimension with the same size, and nothing added bears the name of an old variable / dimension. -/
-theorem C17_monotone (fx : Fix) (nc4 : Bool) (E : Ds) (rb S : List FieldReq) :
+theorem C17_monotone (fx : Fix) (hg : fx.globalsGuarded = true) (nc4 : Bool) (E : Ds) (rb S : List FieldReq) :
     Extends E (append fx nc4 E rb S).2 :=
-  appendFull_extends fx nc4 E rb S
+  appendFull_extends fx hg nc4 E rb S
 
 /-- Any sequence of appends (each given whatever the reader returns for the dataset at that time). -/
-theorem C17_monotone_sequence (fx : Fix) (nc4 : Bool) (readBack : Ds → List FieldReq) :
+theorem C17_monotone_sequence (fx : Fix) (hg : fx.globalsGuarded = true) (nc4 : Bool) (readBack : Ds → List FieldReq) :
     ∀ (batches : List (List FieldReq)) (E : Ds), Extends E (appendSeq fx nc4 readBack E batches).2 := by
   intro batches
   induction batches with
@@ -128,7 +128,7 @@ theorem C17_monotone_sequence (fx : Fix) (nc4 : Bool) (readBack : Ds → List Fi
   | cons S rest ih =>
     intro E
     simp only [appendSeq]
-    exact (C17_monotone fx nc4 E (readBack E) S).trans (ih _)
+    exact (C17_monotone fx hg nc4 E (readBack E) S).trans (ih _)
 
 /-- non-vacuity: two successive appends, the second one refused (a featureType on a dataset without one);
 both leave `lat` and `q` in place. -/
@@ -139,9 +139,32 @@ example : (appendSeq Fix.new true (fun _ => []) exE [[exS], [{ reqs := [], featu
   decide
 
 /-- In particular the global attributes after any sequence of appends are those of the dataset. -/
-theorem C17_globals_unchanged (fx : Fix) (nc4 : Bool) (readBack : Ds → List FieldReq) (batches : List (List FieldReq)) (E : Ds) :
+theorem C17_globals_unchanged (fx : Fix) (hg : fx.globalsGuarded = true) (nc4 : Bool) (readBack : Ds → List FieldReq) (batches : List (List FieldReq)) (E : Ds) :
     (appendSeq fx nc4 readBack E batches).2.gattrs = E.gattrs :=
-  (C17_monotone_sequence fx nc4 readBack batches E).gattrs
+  (C17_monotone_sequence fx hg nc4 readBack batches E).gattrs
+
+/-- The guard is what the theorem rests on.  `_set_external_variables` is one of the guarded sites: an
+appended field with an external cell measure `areacello` makes the pass call
+`setncattr('external_variables', …)`; guarded (the code), the dataset keeps `external_variables =
+"areacella"`; with the guard of that one site removed the global attribute is rewritten. -/
+def exExt : Ds := { dims := [⟨"lat", 5, false⟩], vars := [⟨"lat", ["lat"], [], 1⟩, ⟨"q", ["lat"], [("cell_measures", "area: areacella")], 2⟩],
+                    gattrs := [("Conventions", "CF-1.11"), ("external_variables", "areacella")] }
+def exExtRead : List FieldReq :=
+  [{ reqs := [.dimCoord 0 0 ⟨1, 0, [], none⟩ (some "lat") none 5 false none, .msr 1 ⟨5, 3, [], none⟩ [0] "areacella" "area" (some "areacella"),
+              .data ⟨2, 7, [], none⟩ "q" [0] [] false] }]
+def exExtNew : FieldReq :=
+  { reqs := [.dimCoord 0 0 ⟨1, 0, [], none⟩ (some "lat") none 5 false none, .msr 1 ⟨6, 3, [], none⟩ [0] "areacello" "area" (some "areacello"),
+             .data ⟨9, 7, [], none⟩ "ta" [0] [] false] }
+
+example : (append Fix.new true exExt exExtRead [exExtNew]).1 = .ok ∧
+          (append Fix.new true exExt exExtRead [exExtNew]).2.gattrs = exExt.gattrs ∧
+          (append Fix.new true exExt exExtRead [exExtNew]).2.varNames = ["lat", "q", "ta"] := by
+  decide
+
+theorem C17_unguarded_external_variables_rewrites_global :
+    (append { Fix.new with globalsGuarded := false } true exExt exExtRead [exExtNew]).2.gattrs =
+      [("Conventions", "CF-1.11"), ("external_variables", "areacella areacello")] := by
+  decide
 
 example : (append Fix.new true exE [] [exS]).1 = .ok ∧ (append Fix.new true exE [] [exS]).2.varNames = ["lat", "q", "lon", "ua"] := by
   decide
@@ -202,20 +225,20 @@ theorem C17_dry_run_registry_not_the_dataset :
 dimension names plus the global attributes: after an append (any outcome) every old variable has the
 same footprint, provided the dataset was self-contained and no new variable took the name of an old
 dimension (which `C17_names_fresh` excludes for names that went through `_netcdf_name`). -/
-theorem C17_old_readable (fx : Fix) (nc4 : Bool) (E : Ds) (rb S : List FieldReq) (refsOf : Var → List Name)
+theorem C17_old_readable (fx : Fix) (hg : fx.globalsGuarded = true) (nc4 : Bool) (E : Ds) (rb S : List FieldReq) (refsOf : Var → List Name)
     (hc : Closed refsOf E) (hs : NewVarsAvoidDims E (append fx nc4 E rb S).2)
     (fuel : Nat) (v : Var) (hv : v ∈ E.vars) :
     footprint refsOf (append fx nc4 E rb S).2 fuel v = footprint refsOf E fuel v :=
-  footprint_ext refsOf (C17_monotone fx nc4 E rb S) hs hc fuel v hv
+  footprint_ext refsOf (C17_monotone fx hg nc4 E rb S) hs hc fuel v hv
 
 /-- … and it is still returned as a field unless a new variable refers to it (a shared *coordinate*
 gains referencers, which cannot make it a field; a *data* variable is referred to by a new variable only
 if a domain ancillary of the batch equals it, the one `ignore_type` comparison of the writer). -/
-theorem C17_old_still_field (fx : Fix) (nc4 : Bool) (E : Ds) (rb S : List FieldReq) (refsOf : Var → List Name)
+theorem C17_old_still_field (fx : Fix) (hg : fx.globalsGuarded = true) (nc4 : Bool) (E : Ds) (rb S : List FieldReq) (refsOf : Var → List Name)
     (v : Var) (hf : IsField refsOf E v)
     (hnew : ∀ w ∈ (append fx nc4 E rb S).2.vars, w ∉ E.vars → v.name ∉ refsOf w) :
     IsField refsOf (append fx nc4 E rb S).2 v :=
-  isField_ext refsOf (C17_monotone fx nc4 E rb S) v hf hnew
+  isField_ext refsOf (C17_monotone fx hg nc4 E rb S) v hf hnew
 
 example : Closed (fun _ => []) exE := ⟨by decide, by intro v _ n hn; cases hn⟩
 example : NewVarsAvoidDims exE (append Fix.new true exE [] [exS]).2 := by
